@@ -46,7 +46,7 @@ func hexMap(m map[string]string) [][2]string {
 }
 
 func (s ctxState) witness() map[string]interface{} {
-	w := map[string]interface{}{"request_hex": hexMap(s.req), "response_hex": hexMap(s.resp), "timeout_ms": int64(s.timeout / time.Millisecond)}
+	w := map[string]interface{}{"request_hex": hexMap(s.req), "response_hex": hexMap(s.resp), "timeout_ns": int64(s.timeout), "timeout": s.timeout.String()}
 	if s.eph != nil {
 		w["ephemeral"] = fmt.Sprintf("%#v", s.eph)
 	}
@@ -166,11 +166,27 @@ func randEphKey(rng *rand.Rand) interface{} {
 	}
 }
 
+var timeoutPool = []time.Duration{
+	// whole milliseconds
+	0, time.Millisecond, 7 * time.Millisecond, 250 * time.Millisecond, 5 * time.Second, 5001 * time.Millisecond, time.Minute, 24 * time.Hour,
+	// not whole milliseconds, sub-millisecond, negative
+	1500 * time.Microsecond, 999 * time.Microsecond, 500 * time.Microsecond, time.Nanosecond, 999999 * time.Nanosecond,
+	2000345678 * time.Nanosecond, time.Minute + time.Nanosecond, 1001 * time.Microsecond,
+	-time.Nanosecond, -1500 * time.Microsecond, -time.Millisecond, -time.Second,
+}
+
+func randTimeout(rng *rand.Rand) time.Duration {
+	if rng.Intn(4) == 0 {
+		return time.Duration(rng.Int63n(int64(10*time.Second))) - time.Duration(rng.Intn(2))*time.Second // any nanosecond value in [-1s, 10s)
+	}
+	return timeoutPool[rng.Intn(len(timeoutPool))]
+}
+
 // mutation is one step of a script.
 type mutation struct {
 	kind   string // req, resp, timeout, eph
 	k, v   string
-	ms     int64
+	d      time.Duration // SetTimeout argument: any duration, not only whole milliseconds
 	ek, ev interface{}
 }
 
@@ -181,7 +197,7 @@ func (m mutation) String() string {
 	case "resp":
 		return fmt.Sprintf("AddResponseHeader(hex %x, hex %x)", m.k, m.v)
 	case "timeout":
-		return fmt.Sprintf("SetTimeout(%dms)", m.ms)
+		return fmt.Sprintf("SetTimeout(%dns = %v)", int64(m.d), m.d)
 	}
 	return fmt.Sprintf("AddEphemeralProperty(%#v, %#v)", m.ek, m.ev)
 }
@@ -205,7 +221,7 @@ func randMutation(rng *rand.Rand, withEph bool) mutation {
 	case 1:
 		return mutation{kind: "resp", k: randRespKey(rng), v: randString(rng)}
 	case 2:
-		return mutation{kind: "timeout", ms: []int64{0, 1, 7, 250, 5000, 5001, 60000, 86400000}[rng.Intn(8)]}
+		return mutation{kind: "timeout", d: randTimeout(rng)}
 	}
 	return mutation{kind: "eph", ek: randEphKey(rng), ev: randEph(rng)}
 }
@@ -220,10 +236,26 @@ func (m mutation) apply(ctx frugal.FContext, model *ctxState) {
 		ctx.AddResponseHeader(m.k, m.v)
 		model.resp[m.k] = m.v
 	case "timeout":
-		ctx.SetTimeout(time.Duration(m.ms) * time.Millisecond)
-		model.timeout = time.Duration(m.ms) * time.Millisecond
-		// both implementations keep the timeout in this header
-		model.req["_timeout"] = strconv.FormatInt(m.ms, 10)
+		ctx.SetTimeout(m.d)
+		if m.d >= 0 && m.d%time.Millisecond == 0 {
+			// whole milliseconds are representable exactly: the value is predicted
+			model.timeout = m.d
+			// both implementations keep the timeout in this header
+			model.req["_timeout"] = strconv.FormatInt(int64(m.d/time.Millisecond), 10)
+		} else {
+			// Sub-millisecond, fractional and negative durations: what
+			// Timeout() makes of them is not C17's concern. The model takes
+			// what the context itself reports right after its own SetTimeout
+			// (the script is sequential); the oracles are that a clone taken
+			// later reports the same Timeout() and "_timeout" header, and that
+			// nobody else's change alters them.
+			model.timeout = ctx.Timeout()
+			if v, ok := ctx.RequestHeader("_timeout"); ok {
+				model.req["_timeout"] = v
+			} else {
+				delete(model.req, "_timeout")
+			}
+		}
 	case "eph":
 		ctx.(frugal.FContextWithEphemeralProperties).AddEphemeralProperty(m.ek, m.ev)
 		model.eph[m.ek] = m.ev
@@ -394,6 +426,16 @@ func stageCloneSeq(run *ev.Run, p params, ids *idCollector) {
 		}
 	}
 	run.Add("clone_scripts", p.cloneScripts)
+	// what the tree under test makes of some timeouts, original vs both clone
+	// forms (observed, for the record; the verdicts come from the scripts)
+	probe := map[string]string{}
+	for _, d := range []time.Duration{1500 * time.Microsecond, 999 * time.Microsecond, 2000345678 * time.Nanosecond, 0, -1500 * time.Microsecond} {
+		c := frugal.NewFContext("probe").SetTimeout(d)
+		h, _ := c.RequestHeader("_timeout")
+		probe[fmt.Sprintf("SetTimeout(%v)", d)] = fmt.Sprintf("original %v (_timeout=%s), frugal.Clone %v, method Clone %v", c.Timeout(), h,
+			frugal.Clone(c).Timeout(), c.(frugal.FContextWithEphemeralProperties).Clone().Timeout())
+	}
+	run.Set("timeout_probe", probe)
 	// informational: a foreign FContext that does not keep its timeout in the
 	// "_timeout" header loses it through frugal.Clone (it would not reach the
 	// wire either); recorded, not judged.
